@@ -628,6 +628,30 @@ func ClauseOptions(yield func(name string, s S)) {
 			yield("setop-chain", SetOp(SetOp(simpleSel("t1"), op, all, simpleSel("t2")), "UNION", false, simpleSel("t3")))
 		}
 	}
+	// the same list-bearing clause twice in one statement, each with names of its own and lists of different lengths
+	// in both orders: what the parser collected for the first occurrence must survive the second
+	for m, js := range [][]Join{
+		{{Kw: "JOIN", Right: TableRef{Name: "t2"}, Using: []string{"c2", "c3"}}, {Kw: "JOIN", Right: TableRef{Name: "t3"}, Using: []string{"c4"}}},
+		{{Kw: "JOIN", Right: TableRef{Name: "t2"}, Using: []string{"c4"}}, {Kw: "LEFT JOIN", Right: TableRef{Name: "t3"}, Using: []string{"c2", "c3"}}},
+		{{Kw: "JOIN", Right: TableRef{Name: "t2"}, Using: []string{"c2", "c3", "c4"}}, {Kw: "JOIN", Right: TableRef{Name: "t3"}, Using: []string{"c5", "c6"}}, {Kw: "JOIN", Right: TableRef{Name: "t4"}, Using: []string{"c7"}}},
+	} {
+		s = base()
+		s.Joins = js
+		yield(fmt.Sprintf("join-using-twice-%d", m), s.Build())
+	}
+	s = base()
+	s.From = []TableRef{{Name: "w2"}}
+	s.With = &With{CTEs: []CTE{{Name: "w1", Cols: []string{"a1", "a2", "a3"}, Body: Sel{Items: []SelItem{{X: Int("1")}, {X: Int("2")}, {X: Int("3")}}}.Build()},
+		{Name: "w2", Cols: []string{"a4"}, Body: Sel{Items: []SelItem{{X: Col("a1")}}, From: []TableRef{{Name: "w1"}}}.Build()}}}
+	yield("cte-column-lists-twice", s.Build())
+	s = base()
+	s.Items = []SelItem{{X: Func("f1", []X{Col("c2"), Col("c3"), Col("c4")}, FuncOpts{})}, {X: Func("f2", []X{Col("c5")}, FuncOpts{})},
+		{X: In(Col("c6"), false, []X{Int("1"), Int("2"), Int("3")})}, {X: In(Col("c7"), false, []X{Int("4")})}}
+	yield("argument-lists-twice", s.Build())
+	s = base()
+	s.Items = []SelItem{{X: Func("SUM", []X{Col("c2")}, FuncOpts{Over: &Window{Partition: []X{Col("c3"), Col("c4")}, Order: []OrderItem{{X: Col("c5")}, {X: Col("c6")}}}})},
+		{X: Func("SUM", []X{Col("c7")}, FuncOpts{Over: &Window{Partition: []X{Col("c8")}, Order: []OrderItem{{X: Col("c9")}}}})}}
+	yield("window-lists-twice", s.Build())
 	// CTE forms
 	for _, rec := range []bool{false, true} {
 		for _, cols := range [][]string{nil, {"a1"}, {"a1", "a2"}} {
